@@ -22,6 +22,11 @@ fn base_cfg(tier: Tier, index: u64) -> HistCfg {
     w.flush = 1;
     w.bulk = 1;
     w.stats = 1;
+    // every 3rd case: handle churn, incl. asking for the open map again with OTHER parameters
+    // (which are ignored: the handle aliases the open map)
+    if index % 3 == 1 {
+        w.handles = 5;
+    }
     let mut c = HistCfg {
         kts: Kt::ALL.to_vec(),
         key: if index % 9 == 0 { KeyProfile::Long } else { KeyProfile::Medium },
